@@ -1925,7 +1925,9 @@ class Selector(SelectorBase, _SignatureSelector):
             self._objects = list(objects.values())
         else:
             self.names = {}
-            self._objects = objects
+            # never store a proxy (e.g. handed back by `p.objects += [...]`)
+            # as the underlying list: it would be a proxy of itself
+            self._objects = list(objects) if isinstance(objects, ListProxy) else objects
 
     # Note that if the list of objects is changed, the current value for
     # this parameter in existing POs could be outside of the new range.
